@@ -145,6 +145,7 @@ func pgScripts(g *gen.Rand) []script {
 	as := w.protect("plain_as", []byte("secret-as"))
 	sab := w.protect("search_ab", []byte("needle"))
 	mab := w.protect("mask_ab_r", []byte("4111111111111111"))
+	ti := w.protect("typed_i32", []byte("123"))
 	names := []string{"id", "plain_as", "plain_ab", "search_ab", "mask_ab_r", "tok_i32", "tok_str", "typed_i32"}
 	colsFmt := func(f uint16) []pgCol {
 		oids := []uint32{23, 17, 17, 17, 17, 23, 25, 17}
@@ -156,10 +157,10 @@ func pgScripts(g *gen.Rand) []script {
 	}
 	selectList := "id, plain_as, plain_ab, search_ab, mask_ab_r, tok_i32, tok_str, typed_i32"
 	textRows := catArts("datarows-text",
-		pgDataRow([]pgParam{{v: []byte("1")}, {v: pgHex(as)}, {v: pgHex(ab)}, {v: pgHex(sab)}, {v: pgHex(mab)}, {v: []byte("123")}, {v: []byte("tok")}, {v: pgHex(ab)}}),
+		pgDataRow([]pgParam{{v: []byte("1")}, {v: pgHex(as)}, {v: pgHex(ab)}, {v: pgHex(sab)}, {v: pgHex(mab)}, {v: []byte("123")}, {v: []byte("tok")}, {v: pgHex(ti)}}),
 		pgDataRow([]pgParam{{v: []byte("2")}, {null: true}, {v: []byte("plain")}, {null: true}, {v: []byte(`\001\002abc`)}, {v: []byte("-5")}, {null: true}, {v: []byte("zz")}}))
 	binRows := catArts("datarows-binary",
-		pgDataRow([]pgParam{{v: encInt(1, 4, true)}, {v: as}, {v: ab}, {v: sab}, {v: mab}, {v: encInt(123, 4, true)}, {v: []byte("tok")}, {v: ab}}),
+		pgDataRow([]pgParam{{v: encInt(1, 4, true)}, {v: as}, {v: ab}, {v: sab}, {v: mab}, {v: encInt(123, 4, true)}, {v: []byte("tok")}, {v: ti}}),
 		pgDataRow([]pgParam{{v: encInt(2, 4, true)}, {null: true}, {v: []byte("plain")}, {null: true}, {v: []byte("x")}, {v: encInt(0xfffffffb, 4, true)}, {null: true}, {v: []byte("zz")}}))
 	authSeq := catArts("auth-sequence", pgAuthOK(), pgParamStatus("server_version", "14.1"), pgParamStatus("client_encoding", "UTF8"),
 		pgMsg('K', nb("backendkey").be32("pid", 4242).be32("key", 99).art()), pgReady('I'))
@@ -464,10 +465,22 @@ func init() {
 	var rigC, rigD *pgProxyRig
 	cs, cg := sessionGen(pgScripts, 'C')
 	reg(&target{name: "pg.proxy.client-stream", group: "pg", weight: 0.5, prepare: cs, gen: cg,
-		setup: func() error { var err error; rigC, err = newPgProxyRig(); return err },
+		setup: func() error {
+			var err error
+			if rigC, err = newPgProxyRig(); err != nil {
+				return err
+			}
+			return selfTestSessions(pgScripts(gen.New(1, "selftest")), rigC.run)
+		},
 		run:   func(in []byte) error { return rigC.run(in) }})
 	ds, dg := sessionGen(pgScripts, 'D')
 	reg(&target{name: "pg.proxy.db-stream", group: "pg", weight: 0.5, prepare: ds, gen: dg,
-		setup: func() error { var err error; rigD, err = newPgProxyRig(); return err },
+		setup: func() error {
+			var err error
+			if rigD, err = newPgProxyRig(); err != nil {
+				return err
+			}
+			return selfTestSessions(pgScripts(gen.New(1, "selftest")), rigD.run)
+		},
 		run:   func(in []byte) error { return rigD.run(in) }})
 }
